@@ -56,12 +56,15 @@ pub fn render_trait(name: &str, trait_int: i64, rows: &[Vec<i64>]) -> String {
     if trait_int != 0 { s.push_str("#[int_result]\n"); }
     s.push_str(&format!("pub trait {} {{\n", name));
     for (k, r) in rows.iter().enumerate() {
-        let recv = match r[0] { 0 => "&self", 1 => "&mut self", _ => "self" };
-        match r[1] { 1 => s.push_str("    #[int_result]\n"), 2 => s.push_str("    #[no_int_result]\n"), _ => {} }
+        // intmode: low 2 bits = int_result attribute; +4 = the method has a default body; +8 = explicit lifetime generics <'a>
+        let has_default = r[1] & 4 != 0;
+        let lt = r[1] & 8 != 0 && r[0] != 2;
+        let recv = match (r[0], lt) { (0, false) => "&self", (0, true) => "&'a self", (1, false) => "&mut self", (1, true) => "&'a mut self", _ => "self" };
+        match r[1] & 3 { 1 => s.push_str("    #[int_result]\n"), 2 => s.push_str("    #[no_int_result]\n"), _ => {} }
         let n = r[4] as usize;
         let mut args = String::new();
         for i in 0..n { args.push_str(&format!(", a{}: {}", i, arg_ty(r[5 + 2 * i], r[6 + 2 * i]))); }
-        s.push_str(&format!("    fn m{}({}{}){};\n", k, recv, args, ret_ty(r[2], r[3])));
+        s.push_str(&format!("    fn m{}{}({}{}){}{}\n", k, if lt { "<'a>" } else { "" }, recv, args, ret_ty(r[2], r[3]), if has_default { " { loop {} }" } else { ";" }));
     }
     s.push_str("}\n");
     s
@@ -69,16 +72,30 @@ pub fn render_trait(name: &str, trait_int: i64, rows: &[Vec<i64>]) -> String {
 
 fn norm(t: &impl ToTokens) -> String { t.to_token_stream().to_string().replace(' ', "") }
 
+/// normalised type string without lifetimes ('a, '_ and a following comma): they do not matter for the C type
+fn norm_nolt(t: &impl ToTokens) -> String {
+    let spaced = t.to_token_stream().to_string();
+    let b: Vec<char> = spaced.chars().collect();
+    let mut o = String::new();
+    let mut i = 0;
+    while i < b.len() {
+        if b[i] == '\'' { i += 1; while i < b.len() && (b[i].is_alphanumeric() || b[i] == '_') { i += 1; } continue; }
+        if b[i] != ' ' { o.push(b[i]); }
+        i += 1;
+    }
+    o.replace("<,", "<").replace("&,", "&")
+}
+
 /// C type code of a vtable parameter / return type
 fn ctype_code(t: &Type) -> (i64, i64) {
-    let s = norm(t);
+    let s = norm_nolt(t);
     let lf = |x: &str| LEAVES.iter().position(|l| *l == x).map(|p| p as i64);
     if let Some(p) = lf(&s) { return (1, p); }
     if s == "Pod" { return (8, 0); }
     if s == "i32" { return (1, 5); }
     let inner = |pre: &str, suf: &str| -> Option<i64> { if s.starts_with(pre) && s.ends_with(suf) { lf(&s[pre.len()..s.len() - suf.len()]) } else { None } };
-    for pre in ["::cglue::slice::CSliceRef<", "::cglue::slice::CSliceRef<'_,"] { if let Some(p) = inner(pre, ">") { return (2, p); } }
-    for pre in ["::cglue::slice::CSliceMut<", "::cglue::slice::CSliceMut<'_,"] { if let Some(p) = inner(pre, ">") { return (3, p); } }
+    if let Some(p) = inner("::cglue::slice::CSliceRef<", ">") { return (2, p); }
+    if let Some(p) = inner("::cglue::slice::CSliceMut<", ">") { return (3, p); }
     if let Some(p) = inner("::cglue::option::COption<", ">") { return (4, p); }
     if let Some(p) = inner("Option<&", ">") { return (5, p); }
     if let Some(p) = inner("&mut", "") { return (6, p); }
@@ -145,7 +162,7 @@ pub fn abstract_trait(name: &str, nmeth: usize, expansion: &str) -> std::result:
             if let Type::BareFn(f) = &fields[p].ty {
                 abi_c = f.abi.as_ref().map(|a| a.name.as_ref().map(|n| n.value() == "C").unwrap_or(true)).unwrap_or(false) as i64;
                 let ins: Vec<&BareFnArg> = f.inputs.iter().collect();
-                if let Some(first) = ins.first() { recv = match norm(&first.ty).as_str() { "&CGlueC" => 0, "&mutCGlueC" => 1, "CGlueC" => 2, _ => 9 }; }
+                if let Some(first) = ins.first() { recv = match norm_nolt(&first.ty).as_str() { "&CGlueC" => 0, "&mutCGlueC" => 1, "CGlueC" => 2, _ => 9 }; }
                 for a in ins.iter().skip(1) { cargs.push(ctype_code(&a.ty)); }
                 cret = match &f.output { ReturnType::Default => (0, 0), ReturnType::Type(_, t) => ctype_code(t) };
             }
@@ -159,7 +176,7 @@ pub fn abstract_trait(name: &str, nmeth: usize, expansion: &str) -> std::result:
         // ---- wrapper function
         let wf = items.iter().find_map(|i| if let Item::Fn(f) = i { if f.sig.ident == wname { Some(f) } else { None } } else { None });
         match wf {
-            None => row.extend([9, 9, 0, 9]),
+            None => row.extend([9, 0, 0, 0, 0, 0, 9, 7]),
             Some(f) => {
                 let stmts = &f.block.stmts;
                 let mut access = 9; let mut into_inner = 0; let mut target_ok = 0; let mut convs: Vec<i64> = vec![]; let mut mapped = 0; let mut tail = 9; let mut ctx_clone = 0; let mut unknown = 0;
@@ -209,7 +226,7 @@ pub fn abstract_trait(name: &str, nmeth: usize, expansion: &str) -> std::result:
         // ---- trait impl method
         let tm = timpl.items.iter().find_map(|ii| if let ImplItem::Method(m) = ii { if m.sig.ident == mname { Some(m) } else { None } } else { None });
         match tm {
-            None => row.extend([9, 9, 9, 9]),
+            None => row.extend([0, 9, 9, 9, 0, 9, 9, 7]),   // the trait re-implementation has no such method: calls would run the trait's default body
             Some(m) => {
                 let stmts = &m.block.stmts;
                 let pnames: Vec<String> = m.sig.inputs.iter().skip(1).filter_map(|a| if let FnArg::Typed(p) = a { Some(norm(&p.pat)) } else { None }).collect();
